@@ -78,7 +78,7 @@ inline size_t utf8_decode(const std::string& s, size_t i, uint32_t& cp) {
 
 inline void spell_string(Src& s, Spell& sp, const std::string& str, std::string& o, bool is_key) {
   // dialect: unquoted identifier keys
-  if (!sp.strict && is_key && !str.empty() && s.chance(1, 5)) {
+  if (!sp.strict && is_key && !str.empty() && s.chance(1, 3)) {
     bool ident = !(str[0] >= '0' && str[0] <= '9');
     for (unsigned char c : str)
       if (!((c >= 'a' && c <= 'z') || (c >= 'A' && c <= 'Z') || (c >= '0' && c <= '9') || c == '_')) ident = false;
